@@ -7,10 +7,11 @@ import ParsecVerif.Model.PtgDist
     prog <serialisation>                         -> ok <instances> <edges>
     wf                                           -> `wf <bool> gwf <bool>`: Ptg.WellFormed and DGraph.WF of graphOfProg
     ref <nt>                                     -> reference interpreter: `c l.. : seen.. : wrote.. ; .. # tile0 tile1 ..`
-    dok <topo> <nranks> <nt> <table..>           -> `true <collectives> <differing>` | `false <collectives> <differing> / <node..>`
-                                                    deliveryOKAll for the configuration (the hypothesis of
+    dok <topo> <nranks> <nt> <table..>           -> `true <collectives> <differing> <c13>` | `false <collectives> <differing> <c13> / <node..>`
+                                                    dataOKAll for the configuration (the hypothesis of
                                                     C05_rank_invariance_partial), number of nodes with a remote
                                                     successor, number of those whose outputs have different rank sets,
+                                                    number of nodes violating C13's DeliveryOK (control outputs included),
                                                     and the offending nodes as instance positions
     starved <topo> <nranks> <nt> <table..>       -> instances (`c l..`, `;`-separated) that can never run when outputs are lost
     place <nranks> <nt> <table..>                -> owner rank of every instance
@@ -65,8 +66,9 @@ def step5 (s : DSt5) : List String → DSt5 × String
             | o :: os => os.any fun o' => !(o'.2.all o.2.contains && o.2.all o'.2.contains)
             | [] => false
           let bad := notOK g cf
-          if bad.isEmpty then (s, s!"true {colls.length} {differing.length}")
-          else (s, s!"false {colls.length} {differing.length} / {" ".intercalate (bad.map toString)}")
+          let c13 := (notDeliveryOK g cf).length
+          if bad.isEmpty then (s, s!"true {colls.length} {differing.length} {c13}")
+          else (s, s!"false {colls.length} {differing.length} {c13} / {" ".intercalate (bad.map toString)}")
         | _, _, _, _ => (s, "bad-op")
       | "starved" :: t :: n :: nt :: tab =>
         match nat? t, nat? n, nat? nt, nats? tab with
